@@ -25,6 +25,7 @@
 #include <unistd.h>
 #include <signal.h>
 #include <time.h>
+#include <errno.h>
 
 namespace vh {
 
@@ -175,6 +176,7 @@ struct Shared {
     volatile long flushed;   // every case <= flushed has reached stdout
     volatile long done;      // worker finished normally
     volatile long alloc_faults_fired;
+    volatile long flushing;  // worker is blocked writing its output (not a hang)
 };
 
 struct Options {
@@ -207,15 +209,26 @@ public:
     void finish() { flush(); }
     long index() const { return index_; }
 private:
+    // Output is collected in our own buffer and written only at flush points, so a worker that
+    // dies never leaves a partial line behind (stdio would flush whenever its buffer fills).
     void out(const std::string &input, const std::string &obs) {
         // an observation starting with \x01 is a pre-formatted run of complete lines (block expansion)
-        if (!obs.empty() && obs[0] == '\x01') { fputs(obs.c_str() + 1, stdout); if (++pending_ >= 512) flush(); return; }
-        fputs(input.c_str(), stdout); fputs(" => ", stdout); fputs(obs.c_str(), stdout); fputc('\n', stdout);
-        if (++pending_ >= 512) flush();
+        if (!obs.empty() && obs[0] == '\x01') buf_.append(obs, 1, std::string::npos);
+        else { buf_ += input; buf_ += " => "; buf_ += obs; buf_ += '\n'; }
+        if (++pending_ >= 512 || buf_.size() > (4u << 20)) flush();
     }
-    void flush() { fflush(stdout); sh_->flushed = index_; pending_ = 0; }
+    void flush() {
+        sh_->flushing = 1;
+        size_t off = 0;
+        while (off < buf_.size()) {
+            ssize_t w = ::write(1, buf_.data() + off, buf_.size() - off);
+            if (w <= 0) { if (errno == EINTR) continue; _exit(3); }
+            off += (size_t)w;
+        }
+        buf_.clear(); sh_->flushed = index_; pending_ = 0; sh_->flushing = 0;
+    }
     Shared *sh_; long start_; const std::map<long, std::string> &skip_; ExecFn exec_;
-    long index_ = 0; int pending_ = 0;
+    long index_ = 0; int pending_ = 0; std::string buf_;
 };
 
 typedef std::function<void(Emitter &, const Options &)> GenFn;
@@ -302,7 +315,7 @@ inline int run_main(int argc, char **argv, GenFn gen, Emitter::ExecFn exec) {
     std::map<long, std::string> skip;
     long start = 1; int restarts = 0; long total_faults = 0;
     for (;;) {
-        sh->current = 0; sh->done = 0;
+        sh->current = 0; sh->done = 0; sh->flushing = 0;
         fflush(stdout);
         pid_t pid = fork();
         if (pid == 0) {
@@ -321,7 +334,7 @@ inline int run_main(int argc, char **argv, GenFn gen, Emitter::ExecFn exec) {
             pid_t r = waitpid(pid, &status, WNOHANG);
             if (r == pid) break;
             long cur = sh->current;
-            if (cur != last) { last = cur; last_change = now_s(); }
+            if (cur != last || sh->flushing) { last = cur; last_change = now_s(); }
             else if (cur > 0 && now_s() - last_change > opt.case_timeout) { kill(pid, SIGKILL); waitpid(pid, &status, 0); hung = true; break; }
             usleep(2000);
         }
